@@ -56,6 +56,16 @@ def step (_ : Unit) (j : Json) : Unit × Json :=
       if inexact then ((), Json.mkObj [("skip", Json.bool true)])
       else ((), Json.mkObj [("m", Json.bool (eval Drv.numOf e x))])
     | _, _ => ((), Drv.bad "match: cannot decode")
+  | some "pipe" =>
+    -- V().has(expr) on a stored graph: the gids `hasFilter` keeps (Props.C08.has_filter), sorted
+    match (arr? j "elems").bind (·.mapM elemOf), (val? j "expr").bind exprOf with
+    | some es, some x =>
+      let inexact := (es.flatMap (fun e => strsOfJV e.data) ++ strsOfExpr x).any (fun s => Drv.parseNumText s == .inexact)
+      if inexact then ((), Json.mkObj [("skip", Json.bool true)])
+      else
+        let kept := ((hasFilter Drv.numOf x es).map (·.gid)).mergeSort (fun a b => a ≤ b)
+        ((), Json.mkObj [("kept", Json.arr (kept.map Json.str).toArray)])
+    | _, _ => ((), Drv.bad "pipe: cannot decode")
   | some "numtext" =>
     match str? j "s" with
     | some s => match Drv.parseNumText s with
